@@ -126,17 +126,28 @@ def run(ctx, rep, tier):
     known = {k["class"] for k in vlib.known_for(PID)}
     samples = []
     t0 = time.process_time()
-    budget = 700 if tier == "quick" else 9000
+    budget = 700 if tier == "quick" else 6000
     fams = list(families(tier, ("digits", "octal", "words"))) + list(families(tier, ("any",)))
     if tier == "thorough":
         fams += list(families(tier, ("kwarg",)))
     n = 0
+    quick_names = {n_ for n_, _, _ in list(families("quick", ("digits", "octal", "words"))) + list(families("quick", ("any",)))}
+    not_decided = []
     for name, spec, assume in fams:
         if time.process_time() - t0 > budget:
             rep.coverage["truncated_at_family"] = name
             break
-        rd, dev = outcome_value(B, spec, assume, "dev")
-        rr, rel = outcome_value(B, spec, assume, "rel")
+        vlib.log("[c17] family %-22s cpu=%.0fs" % (name, time.process_time() - t0))
+        try:
+            rd, dev = outcome_value(B, spec, assume, "dev")
+            rr, rel = outcome_value(B, spec, assume, "rel")
+        except Inconclusive as e:
+            # thorough-only family beyond the engine's capacity (path explosion): listed as not decided, not claimed
+            if name not in quick_names and any(k in str(e) for k in ("too many", "step budget exceeded")):
+                not_decided.append(dict(family=name, reason=str(e).splitlines()[0][-120:]))
+                vlib.log("[c17] family %s NOT DECIDED: %s" % (name, str(e).splitlines()[0][-120:]))
+                continue
+            raise
         n += 1
         I = rd.I
         same_g = False
@@ -166,7 +177,7 @@ def run(ctx, rep, tier):
     cov.update(explanation="for %d input families the real parse/compile/scheme are executed from the debug-profile MIR and from the "
                "release-profile MIR; z3 decides whether any input of the family yields different observable results (tree, options, error "
                "text, program text with the clock normalised, destination table, panic)" % n,
-               bounds=dict(families=n), samples=samples,
+               bounds=dict(families=n, families_not_decided_engine_capacity=not_decided), samples=samples,
                outside="optimiser-level differences (MIR is pre-LLVM; covered only by the native differential validation corpus)",
                evaluations=len(rep.queries), distinct_nontrivial=len(rep.queries))
     rep.coverage = cov
